@@ -22,6 +22,7 @@ class P:
     kid: Any = None
     kids: List[Any] = field(default_factory=list)
     vals: List[Any] = field(default_factory=list)
+    s: Any = frozenset()  # a value of a partially ordered type (sets under inclusion)
 
     def m(self):
         return self.a + self.b
